@@ -111,3 +111,49 @@ Definition valid_compiled (p : cprob) (d : add) (locs : list (list loc)) : bool 
   && Nat.eqb (length (d_levels d)) n
   && forallb (forallb (fun u => Nat.ltb u n)) (p_rows p)
   && compiled_ok p d locs.
+
+(* ---- compile(), general case, over the component structure found by its graph algorithms (connected components of the
+   "appear together in a row" graph, leaf units = a maximal independent set): per component, in order, the sorted factor
+   units and the sorted leaf units.  A component is a header tree over its factors with 2^f copies of the chain over
+   its leaves; the components are concatenated. ---- *)
+Definition comp := (list nat * list nat)%type.
+Definition comp_add (t : atype) (c : comp) : add := add_stack (fst c) (repeat (chain t (snd c)) (2 ^ length (fst c))).
+Definition compile_add (t : atype) (comps : list comp) : add := add_concatenate (map (comp_add t) comps).
+Definition comp_size (c : comp) : nat := length (fst c) + length (snd c).
+Fixpoint index_of (u : nat) (l : list nat) : nat :=
+  match l with [] => 0 | a :: r => if Nat.eqb a u then 0 else S (index_of u r) end.
+Definition memb (u : nat) (l : list nat) : bool := existsb (Nat.eqb u) l.
+(* bit `pos` (0 = most significant) of the nf-bit number q *)
+Definition msb (nf q pos : nat) : bool := Nat.testbit q (nf - 1 - pos).
+(* get_update_location(units of the row, all values 1): the edges with value 1 at the level of the row's last unit (in
+   diagram order: factors, then leaves) leaving the nodes reached under the row's values of its earlier units *)
+Definition row_locs_in (start : nat) (c : comp) (row : list nat) : list loc :=
+  let F := fst c in let L := snd c in
+  let P := map (fun u => index_of u F) (filter (fun u => memb u F) row) in
+  match filter (fun u => memb u L) row with
+  | l :: _ => map (fun q => (start + length F + index_of l L, q, true))
+                  (filter (fun q => forallb (msb (length F) q) P) (seq 0 (2 ^ length F)))
+  | [] => let i := fold_right Nat.max 0 P in
+          map (fun k => (start + i, k, true))
+              (filter (fun k => forallb (fun pos => Nat.eqb pos i || msb i k pos) P) (seq 0 (2 ^ i)))
+  end.
+Fixpoint row_locs (start : nat) (comps : list comp) (row : list nat) : list loc :=
+  match comps with
+  | [] => []
+  | c :: rest => if memb (hd 0 row) (fst c ++ snd c) then row_locs_in start c row
+                 else row_locs (start + comp_size c) rest row
+  end.
+Definition compile_model (t : atype) (comps : list comp) (rows : list (list nat)) : add * list (list loc) :=
+  (compile_add t comps, map (row_locs 0 comps) rows).
+
+(* structural equality of diagrams, and of location lists up to order *)
+Definition eqb_node (a b : node) : bool :=
+  Bool.eqb (n_live a) (n_live b) && Nat.eqb (n_c0 a) (n_c0 b) && Nat.eqb (n_c1 a) (n_c1 b)
+  && a_eqb (n_a0 a) (n_a0 b) && a_eqb (n_a1 a) (n_a1 b).
+Fixpoint eqb_lists {A} (e : A -> A -> bool) (a b : list A) : bool :=
+  match a, b with [] , [] => true | x :: a', y :: b' => e x y && eqb_lists e a' b' | _, _ => false end.
+Definition eqb_add (a b : add) : bool :=
+  eqb_atype (d_type a) (d_type b) && eqb_natlist (d_units a) (d_units b) && Nat.eqb (d_root a) (d_root b)
+  && eqb_lists (eqb_lists eqb_node) (d_levels a) (d_levels b).
+Definition same_locs (a b : list loc) : bool :=
+  Nat.eqb (length a) (length b) && forallb (fun l => existsb (eqb_loc l) b) a && forallb (fun l => existsb (eqb_loc l) a) b.
